@@ -280,6 +280,20 @@ func (g *codecTotGen) mutate(raw []byte, other []byte, full, deep bool) {
 	if full {
 		g.out(g.final(raw), 100)
 	}
+	// zero-valued words after non-zero ones on a reused receiver (a parser that skips its reset when a word is 0
+	// keeps the flags of the earlier message): every aligned 4-byte window of the first 32 bytes zeroed, and all of them
+	for off := 0; off+4 <= len(raw) && off < 32; off += 4 {
+		m := append([]byte{}, raw...)
+		copy(m[off:], []byte{0, 0, 0, 0})
+		g.out(g.final(m), 100)
+	}
+	if len(raw) >= 8 {
+		m := append([]byte{}, raw...)
+		for i := 0; i < 8; i++ {
+			m[i] = 0
+		}
+		g.out(g.final(m), 100)
+	}
 	// count/length fields lie: every byte of the first 40 set to 0, 1, 0xff, b+1, b-1
 	if full {
 		for off := 0; off < len(raw) && off < 40; off++ {
